@@ -246,6 +246,33 @@ func Drivers(nthreads int) []Driver {
 				*out = append(*out, obsMap(m, d))
 			}}
 		}},
+		{"18 record schemas with long lower-case keys (33 and 48 bytes), nested, Parse and Validate", nthreads, func() *Shared {
+			type inner struct {
+				Billing_address_line_one_as_printed_on_the_invoice string
+			}
+			type D struct {
+				Shipping_address_line_one_of_the_recipient string
+				Customer_reference_number_assigned_by_the_erp_system int
+				Inner inner
+			}
+			s := z.Struct(z.Schema{
+				"shipping_address_line_one_of_the_recipient":           z.String().Min(3),
+				"customer_reference_number_assigned_by_the_erp_system": z.Int().GT(5),
+				"inner": z.Struct(z.Schema{"billing_address_line_one_as_printed_on_the_invoice": z.String().Min(3)}),
+			})
+			return &Shared{Thread: func(i int, out *[]string, yield func()) {
+				var d D
+				m := s.Parse(map[string]any{
+					"shipping_address_line_one_of_the_recipient":           []string{"ab", "abcd"}[i%2],
+					"customer_reference_number_assigned_by_the_erp_system": 3 + 10*(i%2),
+					"inner": map[string]any{"billing_address_line_one_as_printed_on_the_invoice": []string{"xy", "wxyz"}[(i+1)%2]},
+				}, &d)
+				*out = append(*out, obsMap(m, d))
+				v := D{Shipping_address_line_one_of_the_recipient: "ab", Customer_reference_number_assigned_by_the_erp_system: 9, Inner: inner{"q"}}
+				m2 := s.Validate(&v)
+				*out = append(*out, obsMap(m2, v))
+			}}
+		}},
 		{"13 tests carrying parameter names of their own (Params option), never seen before in this process", nthreads, func() *Shared {
 			freshNames++
 			pa := map[string]any{"min": 5, fmt.Sprintf("unit_%d_a", freshNames): "chars"}
